@@ -1,14 +1,16 @@
 (** Pins/C13.v — the statements of the C13 theorems, pinned. *)
 From PdfV Require Import Base.Prelude Gen.Generated Cache.Model Cache.Conc Cache.Proofs Cache.ConcProofs Cache.ConcLink Cache.Tables Properties.C13.
 
-Check C13_per_thread_chain : forall c prog rank,
-  per_thread c = true -> acyclic prog rank -> conc_statement c prog (D prog rank).
-Check C13_completion : forall c prog rank progs sched fuel,
+Check C13_per_thread_chain : forall c prog cells rank,
+  per_thread c = true -> acyclic prog rank -> conc_statement c prog cells (lazy_seq cells (D prog rank)).
+Check C13_completion : forall c prog cells rank progs sched fuel,
   per_thread c = true -> acyclic prog rank ->
-  state_ok c (D prog rank) progs (complete c prog fuel (length progs) (run_sched c prog (ginit progs) sched)).
-Check C13_terminates : forall c prog rank progs sched,
+  state_ok c (lazy_seq cells (D prog rank)) progs
+           (complete c prog cells fuel (length progs) (run_sched c prog cells (ginit cells progs) sched)).
+Check C13_terminates : forall c prog cells rank progs sched,
   per_thread c = true -> acyclic prog rank ->
-  exists fuel, all_finished (complete c prog fuel (length progs) (run_sched c prog (ginit progs) sched)) (length progs) = true.
+  exists fuel, all_finished (complete c prog cells fuel (length progs)
+                                      (run_sched c prog cells (ginit cells progs) sched)) (length progs) = true.
 Check C13_sequential_answer :
   forall (prog : tytag -> ref -> comp) (filters : ref -> list filt) (raw : ref -> outcome)
          (appf : filt -> val -> outcome) (imgc : ref -> filt -> val -> outcome)
@@ -17,16 +19,27 @@ Check C13_sequential_answer :
     let st := final_state prog filters raw appf imgc oc sc fuel history init in
     fst (get (cfg_fixed oc sc) prog fuel [] ty r st) = D prog rank ty r /\
     fst (get no_cache prog fuel [] ty r init) = D prog rank ty r.
-Check C13_answers_alone : forall c prog rank progs sched fuel t,
+Check C13_answers_alone : forall c prog cells rank progs sched fuel t,
   per_thread c = true -> acyclic prog rank ->
-  (forall cl, In cl (nth t progs []) -> (rank (snd cl) < fuel)%nat) ->
-  let g := run_sched c prog (ginit progs) sched in
-  let alone := fun cl : tcall => fst (get no_cache prog fuel [] (fst cl) (snd cl) init) in
+  (forall cl, In cl (nth t progs []) -> (rank (item_ref cells cl) < fuel)%nat) ->
+  let g := run_sched c prog cells (ginit cells progs) sched in
+  let alone := call_ans (lazy_seq cells (fun ty r => fst (get no_cache prog fuel [] ty r init))) in
   (exists k, results (threads g t) = map alone (firstn k (nth t progs []))) /\
   (finished g t = true -> results (threads g t) = map alone (nth t progs [])).
 (* the shape of the statement: typed calls, typed expected answers, any number of threads and calls *)
-Check (eq_refl : conc_statement = fun c prog seq =>
-  forall (progs : list (list tcall)) (sched : list tid), state_ok c seq progs (run_sched c prog (ginit progs) sched)).
+Check (eq_refl : conc_statement = fun c prog cells seq =>
+  forall (progs : list (list tcall)) (sched : list tid),
+    state_ok c seq progs (run_sched c prog cells (ginit cells progs) sched)).
+Check (eq_refl : lazy_seq = fun (cells : N -> tcall) (seq : tytag -> ref -> outcome) (ty : tytag) (r : ref) =>
+  if ty =? LAZY then seq (fst (cells r)) (snd (cells r)) else seq ty r).
+Check (eq_refl : item_ref = fun (cells : N -> tcall) (cl : tcall) => if fst cl =? LAZY then snd (cells (snd cl)) else snd cl).
+Check (eq_refl : finished = fun g t => match stack (threads g t), todo (threads g t) with [], [] => true | _, _ => false end).
+Check C13_cell_once : forall c prog cells rank progs sched1 sched2 i o,
+  per_thread c = true -> acyclic prog rank ->
+  let g1 := run_sched c prog cells (ginit cells progs) sched1 in
+  cellst g1 i = CFull o ->
+  o = D prog rank (fst (cells i)) (snd (cells i)) /\
+  cellst (run_sched c prog cells g1 sched2) i = CFull o.
 Check (eq_refl : state_ok = fun c (seq : tytag -> ref -> outcome) (progs : list (list tcall)) g =>
   aborted g = false /\ (forall rs, poisoned g rs = false) /\
   (forall t, prefix_ok seq (nth t progs []) (results (threads g t))) /\
@@ -37,28 +50,28 @@ Check (eq_refl : tcall = (tytag * ref)%type).
 Check C13_full_refuted : ~ C13_full_statement.
 Check C13_refuted_shared_chain : exists prog progs sched,
   let c := mkCcfg true false false in
-  let g := complete c prog 100 (length progs) (run_sched c prog (ginit progs) sched) in
+  let g := complete c prog no_cells 100 (length progs) (run_sched c prog no_cells (ginit no_cells progs) sched) in
   results (threads g 1%nat) = [Err E_OTHER] /\
   (forall fuel, fst (get no_cache prog (S fuel) [] 0 1 init) = Ok 5).
 Check C13_refuted_pop_assert : exists prog progs sched,
   let c := mkCcfg true false false in
-  let g := complete c prog 100 (length progs) (run_sched c prog (ginit progs) sched) in
+  let g := complete c prog no_cells 100 (length progs) (run_sched c prog no_cells (ginit no_cells progs) sched) in
   poisoned g 0 = true /\ results (threads g 0%nat) = [Panic 1] /\ results (threads g 1%nat) = [Panic 1].
 Check C13_refuted_abort : exists prog progs sched,
   let c := mkCcfg true false false in
-  aborted (complete c prog 100 (length progs) (run_sched c prog (ginit progs) sched)) = true.
+  aborted (complete c prog no_cells 100 (length progs) (run_sched c prog no_cells (ginit no_cells progs) sched)) = true.
 Check C13_cyclic_deadlock : exists prog progs sched,
   let c := mkCcfg true true true in
-  deadlocked c (complete c prog 100 (length progs) (run_sched c prog (ginit progs) sched)) (length progs) = true.
+  deadlocked c (complete c prog no_cells 100 (length progs) (run_sched c prog no_cells (ginit no_cells progs) sched)) (length progs) = true.
 Check C13_chain_table : cache_chain_per_thread = true.
 Check (eq_refl : C13_full_statement = conc_full_statement).
-Check (eq_refl : conc_full_statement = (forall c prog fuel, conc_statement c prog (fun ty r => fst (get no_cache prog fuel [] ty r init)))).
+Check (eq_refl : conc_full_statement = (forall c prog cells fuel, conc_statement c prog cells (lazy_seq cells (fun ty r => fst (get no_cache prog fuel [] ty r init))))).
 Check C13_serving_cached_errors_refuted : forall k : N, In k error_kinds ->
   let serve := fun e : N => e =? k in
   let prog := kind_prog k in
   let c := mkCcfg true true true in
-  let g := fold_left (step_gen c prog serve) [0; 0; 1; 1; 0; 0; 0; 1; 1; 1; 1; 1]%nat (ginit [[(1, 3)]; [(2, 3)]]) in
+  let g := fold_left (step_gen c prog no_cells serve) [0; 0; 1; 1; 0; 0; 0; 1; 1; 1; 1; 1]%nat (ginit no_cells [[(1, 3)]; [(2, 3)]]) in
   acyclic prog (fun _ => O) /\ finished g 1%nat = true /\
   results (threads g 1%nat) = [Err k] /\ fst (get no_cache prog 2 [] 2 3 init) = Ok 7.
-Check (eq_refl : step = fun c prog => step_gen c prog (fun _ => false)).
+Check (eq_refl : step = fun c prog cells => step_gen c prog cells (fun _ => false)).
 Check (eq_refl : error_kinds = [1; 2; 3; 4; 5; 6; 7; 8; 9; 10; 11]).
